@@ -1051,6 +1051,7 @@ class F:
     skip_ser: bool = False
     none_as_undefined: bool = False
     undefined: bool = False
+    undef_nodefault: bool = False  # with undefined: Union[X, UndefinedType] without default (required key; Undefined only by construction)
     init_false: bool = False
     initvar: bool = False
     fbod: bool = False
@@ -1062,7 +1063,7 @@ class F:
 
     @property
     def has_default(self):
-        return self.default is not None or self.factory is not None or self.undefined
+        return self.default is not None or self.factory is not None or (self.undefined and not self.undef_nodefault)
 
     @property
     def required(self):
@@ -1147,7 +1148,7 @@ class ObjectT(T):
     def sig(self):
         feats = []
         for f in self.fields:
-            fl = "".join(c for c, on in (("d", f.default is not None), ("y", f.factory), ("a", f.alias), ("F", f.flatten), ("P", f.pattern), ("A", f.additional), ("R", f.required_md), ("s", f.skip_deser), ("S", f.skip_ser), ("n", f.none_as_undefined), ("u", f.undefined), ("i", f.init_false), ("v", f.initvar), ("b", f.fbod), ("c", f.cons)) if on)
+            fl = "".join(c for c, on in (("d", f.default is not None), ("y", f.factory), ("a", f.alias), ("F", f.flatten), ("P", f.pattern), ("A", f.additional), ("R", f.required_md), ("s", f.skip_deser), ("S", f.skip_ser), ("n", f.none_as_undefined), ("u", f.undefined), ("U", f.undef_nodefault), ("i", f.init_false), ("v", f.initvar), ("b", f.fbod), ("c", f.cons)) if on)
             feats.append(f"{f.t.sig()}:{fl}")
         return f"{self.kind}{'!' if not self.total else ''}{self.class_aliaser or ''}{'D' if self.dep_req else ''}{{{';'.join(feats)}}}"
 
@@ -1206,7 +1207,7 @@ class ObjectT(T):
             args.append(f"default_factory={f.factory}")
         elif f.default is not None:
             args.append(f"default={f.default}")
-        elif f.undefined:
+        elif f.undefined and not f.undef_nodefault:
             args.append("default=Undefined")
         if f.init_false:
             args.append("init=False")
@@ -1246,7 +1247,7 @@ class ObjectT(T):
                     args.append(f"default_factory={f.factory}")
                 elif f.default is not None:
                     args.append(f"default={f.default}")
-                elif f.undefined:
+                elif f.undefined and not f.undef_nodefault:
                     args.append("default=Undefined")
                 if f.init_false:
                     args.append("init=False")
